@@ -453,8 +453,9 @@ def r4_caches_and_permutations(ctx):
     _by_name_lookup(ctx)
 
 
-from ..through_time import make_rule as _mk_tt
+from ..through_time import make_rule as _mk_tt, make_t2 as _mk_t2
 _through_time = _mk_tt("C14")
+_small_edits = _mk_t2("C14")
 
 def _fasta_byte_arithmetic(ctx):
     from .c17 import r2_byte_arithmetic
@@ -470,6 +471,7 @@ RULES = [
     ("C14-R3", r3_strand_selectors),
     ("C14-R4", r4_caches_and_permutations),
     ("C14-T1", _through_time),
+    ("C14-T2", _small_edits),
     ("C14-R5", _fasta_byte_arithmetic),
     ("C14-R6", _delta_arrays),
 ]
